@@ -411,6 +411,7 @@ func (e *Engine) verifyFunction(fn *ssa.Function, ct *Contract) *FuncReport {
 		args = append(args, v)
 		c.inputs = append(c.inputs, v...)
 	}
+	c.fn, c.contract, c.entry, c.fnParams = fn, ct, st, args
 	env := c.baseEnv(fn, ct, st, sTrue)
 	for i, p := range fn.Params {
 		env.vars[p.Name()] = sval{args[i], p.Type(), ""}
